@@ -98,6 +98,11 @@ def corruptions(case, rng):
                 sh = list(shapes)
                 sh[i] = tuple(s)
                 out.append((nm, desc, sh, kw, True))
+        s0 = list(shapes[i])
+        s0[j] = 0
+        sh = list(shapes)
+        sh[i] = tuple(s0)
+        out.append(("dim->0", desc, sh, kw, True))
         sh = list(shapes)
         sh[i] = shapes[i] + (2,)
         out.append(("rank+1", desc, sh, kw, True))
@@ -113,6 +118,14 @@ def corruptions(case, rng):
         v = kw3[k]
         kw3[k] = tuple(x + 1 for x in v) if isinstance(v, tuple) else v + 1
         out.append(("kw-contradicted", desc, shapes, kw3, True))
+    # a size given as bool where the valid call gives the integer 1 / 0 (True == 1 and hash(True) == hash(1)): the valid
+    # call runs first, the ill-typed one must still be rejected
+    ones = [k for k, v in kw.items() if isinstance(v, int) and not isinstance(v, bool) and v in (0, 1)]
+    if ones:
+        k = rng.choice(sorted(ones))
+        kwb = dict(kw)
+        kwb[k] = bool(kw[k])
+        out.append(("size-bool-after-equal-int", desc, shapes, kwb, "bool-size"))
     # argument count
     if len(shapes) >= 1:
         out.append(("tensor-removed", desc, shapes[:-1], kw, "count"))
@@ -150,6 +163,12 @@ def corruptions(case, rng):
         from vlib.desc import show_expr
 
         ins = list(case["ins"])
+        # one operand too many for an operation of fixed arity (the extra one has the output's expression: for a
+        # numpy ufunc a further positional array is its out= buffer)
+        lo, hi = family.ELEMENTWISE_ARITY[case["op"]]
+        if lo == hi == len(ins):
+            e_out = case["outs"][0]
+            out.append(("operand-added", ", ".join(show_expr(e) for e in ins + [e_out]) + " -> " + show_expr(e_out), shapes + [tuple(shape(expand(e_out)))], kw, "count"))
         if "->" in desc:
             verdict = implicit_output_candidates(ins)
             out.append(("output-removed", ", ".join(show_expr(e) for e in ins), shapes, kw, "ambiguous" if verdict != 1 else False))
@@ -202,8 +221,15 @@ def work(item):
         while len(kinds) < len(shapes):
             kinds.append(kinds[-1] if kinds else "int")
         arrs = [S.fresh(f"t{i}", s, "bool" if k == "bool" else "int") for i, (s, k) in enumerate(zip(shapes, kinds))]
+        if adjud == "bool-size":
+            try:
+                getattr(einx, case["op"])(desc, *[S.wrap(S.plain(a).copy()) for a in arrs], **case["kwargs"], **case["opts"])
+            except Exception:  # noqa: BLE001
+                pass
         S.DISPATCH["n"] = 0
         r = {"edit": edit, "op": case["op"], "desc": desc, "shapes": [list(s) for s in shapes], "kwargs": runner.jsonable(kw)}
+        if adjud == "bool-size":
+            r["warm_kwargs"] = runner.jsonable(case["kwargs"])
         try:
             getattr(einx, case["op"])(desc, *arrs, **kw, **case["opts"])
             r["outcome"] = "returned"
@@ -224,7 +250,7 @@ def work(item):
             ill = infeasible(case, shapes, kw, timeout_ms)
         elif adjud == "count":
             ill = True
-        elif adjud == "ambiguous":
+        elif adjud in ("ambiguous", "bool-size"):
             ill = True
         elif mixed_bracket_use(desc):
             ill, adjud = True, "bracket-rule"
@@ -235,7 +261,7 @@ def work(item):
         elif r["outcome"] not in ("returned",) and r.get("dispatch_before_exception", 0) > 0 and ill is not False:
             st, r["kind"] = "violation?", "backend-computation-before-rejection"
         elif ill is True and r["outcome"] == "returned":
-            st, r["kind"] = "violation?", "accepted-but-no-assignment-exists" if adjud is True else ("accepted-although-axis-is-bracketed-and-unbracketed" if adjud == "bracket-rule" else "accepted-although-implicit-output-is-not-unique" if adjud == "ambiguous" else "accepted-with-wrong-argument-count")
+            st, r["kind"] = "violation?", "accepted-but-no-assignment-exists" if adjud is True else ("accepted-although-axis-is-bracketed-and-unbracketed" if adjud == "bracket-rule" else "accepted-although-implicit-output-is-not-unique" if adjud == "ambiguous" else "accepted-bool-as-size-after-equal-int" if adjud == "bool-size" else "accepted-with-wrong-argument-count")
             if adjud is True:
                 m = {"exprs": tuple(case["ins"]) + tuple(case["outs"]), "shapes": list(shapes) + [None] * len(case["outs"]), "kwargs": kw}
                 r["cse_relaxation_feasible"] = c02.relaxation_feasible(m, timeout_ms)
@@ -267,6 +293,12 @@ args = [np.zeros(s, dtype=(bool if k == "bool" else np.int64)) for s, k in zip(S
 kw = {{k: tup(v) for k, v in SPEC["kwargs"].items()}}
 print("call: einx.%s(%r, shapes=%r, **%r)   [edit: %s]" % (SPEC["op"], SPEC["desc"], SPEC["shapes"], kw, SPEC["edit"]))
 INTERNAL = {internal!r}
+if SPEC.get("warm_kwargs") is not None:
+    try:
+        getattr(einx, SPEC["op"])(SPEC["desc"], *args, **{{k: tup(v) for k, v in SPEC["warm_kwargs"].items()}})
+        print("earlier valid call with %r: ok" % (SPEC["warm_kwargs"],))
+    except Exception as e:
+        print("earlier call raised", type(e).__name__)
 try:
     r = getattr(einx, SPEC["op"])(SPEC["desc"], *args, **kw)
     out = ("returned", [list(np.shape(x)) for x in (r if isinstance(r, (tuple, list)) else [r])])
@@ -291,6 +323,9 @@ elif kind == "accepted-with-wrong-argument-count":
 elif kind == "accepted-although-axis-is-bracketed-and-unbracketed":
     if out[0] == "returned":
         print("REPRODUCED: einx computed a result (shapes %r) for a description that uses an axis name both inside and outside of brackets" % (out[1],)); sys.exit(1)
+elif kind == "accepted-bool-as-size-after-equal-int":
+    if out[0] == "returned":
+        print("REPRODUCED: a bool given as axis size was accepted (after a valid call with the equal integer)"); sys.exit(1)
 elif kind == "accepted-although-implicit-output-is-not-unique":
     if out[0] == "returned":
         print("REPRODUCED: einx computed a result (shapes %r) for an element-wise call without '->' in which no input, or more than one, contains all axes" % (out[1],)); sys.exit(1)
@@ -304,13 +339,72 @@ print("NOT-REPRODUCED"); sys.exit(0)
 def write_replay(case, r, kinds):
     import hashlib
 
-    spec = {"op": case["op"], "desc": r["desc"], "shapes": r["shapes"], "kinds": kinds[: len(r["shapes"])], "kwargs": dict(r["kwargs"], **runner.jsonable(case["opts"])), "edit": r["edit"], "kind": r["kind"]}
+    spec = {"op": case["op"], "desc": r["desc"], "shapes": r["shapes"], "kinds": kinds[: len(r["shapes"])], "kwargs": dict(r["kwargs"], **runner.jsonable(case["opts"])), "edit": r["edit"], "kind": r["kind"], "warm_kwargs": (dict(r["warm_kwargs"], **runner.jsonable(case["opts"])) if r.get("warm_kwargs") is not None else None)}
     text = json.dumps(runner.jsonable(spec))
     os.makedirs(os.path.join(runner.REPLAY_DIR, PROP), exist_ok=True)
     path = os.path.join(runner.REPLAY_DIR, PROP, "edit_" + hashlib.sha1(text.encode()).hexdigest()[:12] + ".py")
     with open(path, "w") as f:
         f.write(REPLAY.format(spec=text, internal=INTERNAL))
     return path
+
+
+PROBE_REPLAY = r'''#!/venv/bin/python
+"""Replay (C03): a solve_* / matches / operation call on a description built from groups, numbers and ellipses."""
+import sys
+sys.path.insert(0, "/repo")
+import numpy as np
+import einx
+api, desc, shape = {api!r}, {desc!r}, {shape!r}
+try:
+    r = getattr(einx, api)(desc, np.zeros(shape))
+    print("einx.%s(%r, zeros%r) ->" % (api, desc, shape), r if not hasattr(r, "shape") else ("array", r.shape))
+    print("NOT-REPRODUCED"); sys.exit(0)
+except Exception as e:
+    print("einx.%s(%r, zeros%r) raised %s: %s" % (api, desc, shape, type(e).__name__, str(e).splitlines()[0][:200] if str(e) else ""))
+    if type(e).__name__ in {internal!r}:
+        print("REPRODUCED: internal exception type"); sys.exit(1)
+print("NOT-REPRODUCED"); sys.exit(0)
+'''
+
+
+def structure_probes():
+    """Descriptions over groups, numbers, concatenations and ellipses of NUMBERS (sizes known from the text alone),
+    through the solve_* API and einx.id: whatever the verdict, no internal exception type may come out."""
+    out = []
+    inners = [("2 3", 6), ("2 + 3", 5), ("2", 2), ("(2 3)", 6), ("2 (1 + 1)", 4), ("3 1", 3)]
+    for inner, val in inners:
+        for n in (0, 1, 2):
+            tot = val**n
+            forms = [(f"({inner}...)", (tot,)), (f"({inner}...) a", (tot, 2)), (f"(a {inner}...)", (2 * tot,)), (f"a ({inner}...)", (2, tot)), (f"(({inner})...)", (tot,)), (f"({inner}... + a)", (tot + 1,))]
+            for desc, shp in forms:
+                for api in ("solve_shapes", "solve_axes", "matches"):
+                    out.append((api, desc, shp))
+                out.append(("id", desc + " -> " + desc, shp))
+    return out
+
+
+def work_probe(item):
+    import einx
+
+    api, desc, shp = item
+    try:
+        getattr(einx, api)(desc, np.zeros(shp))
+        return {"outcome": "returned"}
+    except Exception as e:  # noqa: BLE001
+        name = type(e).__name__
+        cause = type(e.__cause__).__name__ if e.__cause__ is not None else None
+        bad = name in INTERNAL or (name == "CallOperationError" and cause in INTERNAL)
+        res = {"outcome": name, "internal": bad}
+        if bad:
+            import hashlib
+
+            os.makedirs(os.path.join(runner.REPLAY_DIR, PROP), exist_ok=True)
+            path = os.path.join(runner.REPLAY_DIR, PROP, "probe_" + hashlib.sha1(repr(item).encode()).hexdigest()[:12] + ".py")
+            with open(path, "w") as f:
+                f.write(PROBE_REPLAY.format(api=api, desc=desc, shape=tuple(shp), internal=INTERNAL))
+            ok, out = replay.run_script(path)
+            res["replay"], res["replay_out"], res["reproduced"] = path, out[-500:], ok
+        return res
 
 
 def main():
@@ -327,6 +421,19 @@ def main():
     timeout_ms = 20000 if tier == "thorough" else 6000
     items = [(c, seed, timeout_ms) for fam, n in FAMS.items() for c in family.generate(fam, n * mult, seed + 3, tier)]
     results = runner.pmap(work, items, procs=max(2, runner.nprocs() // 2), chunksize=4)
+    probes = structure_probes()
+    probe_results = runner.pmap(work_probe, probes, procs=max(2, runner.nprocs() // 2), chunksize=8)
+    probe_outcomes = collections.Counter()
+    for pr, r in zip(probes, probe_results):
+        if r.get("status") == "harness-error":
+            rep.harness_error(f"{r.get('error')} {r.get('trace', '')[-400:]}")
+            continue
+        probe_outcomes[r["outcome"]] += 1
+        if r.get("internal"):
+            if r.get("reproduced"):
+                rep.violation({"layer": "probe", "api": pr[0], "desc": pr[1], "outcome": r["outcome"]}, r["replay"], f"einx.{pr[0]}({pr[1]!r}, zeros{tuple(pr[2])}): internal exception type {r['outcome']}\n{r.get('replay_out', '')[-300:]}")
+            else:
+                rep.harness_error(f"probe finding did not reproduce: {pr} {r.get('replay_out', '')[-200:]}")
     status = collections.Counter()
     by_edit = collections.defaultdict(collections.Counter)
     outcomes = collections.Counter()
@@ -349,6 +456,8 @@ def main():
                         samples.append({"edit": r["edit"], "call": f"einx.{r['op']}({r['desc']!r}, shapes={r['shapes']}, **{r['kwargs']})", "z3": "no assignment exists" if r["edit"] not in ("tensor-removed", "tensor-added") else "argument count", "einx": r["outcome"], "numpy_dispatches_before_exception": r.get("dispatch_before_exception")})
             elif st == "violation":
                 sig = {"layer": 2, "edit": r["edit"], "op": r["op"], "desc": r["desc"], "shapes": r["shapes"], "kind": r["kind"], "cse_relaxation_feasible": r.get("cse_relaxation_feasible")}
+                # mechanism field (known_findings.json): *_at returns its first argument when a coordinate/update tensor is empty
+                sig["zero_sized_coordinates_or_updates_of_an_update_op"] = bool(r["op"] in family.UPDATE and r["outcome"] == "returned" and any(0 in s_ for s_ in r["shapes"][1:]) and 0 not in r["shapes"][0])
                 rep.violation(sig, r["replay"], f"[{r['edit']}] einx.{r['op']}({r['desc']!r}, shapes={r['shapes']}, **{r['kwargs']}): {r['kind']}; einx -> {r['outcome']} {r.get('msg', '')}\n{r.get('replay_out', '')[-300:]}")
             elif st == "not-reproduced":
                 rep.harness_error(f"C03 finding did not reproduce: [{r['edit']}] {r['op']} {r['desc']!r} {r['shapes']} kind={r.get('kind')} {r.get('replay_out', '')[-300:]}")
